@@ -302,6 +302,23 @@ static void teardown(World& w)
   sbx_t::sandbox_list.clear();
 }
 
+// the cache of addresses handed out as tainted function pointers, if the tree under test has a separate one
+template<class S, class = void>
+struct cache2
+{
+  static std::string names(S&) { return ""; }
+};
+template<class S>
+struct cache2<S, std::void_t<decltype(std::declval<S&>().internal_func_ptr_map)>>
+{
+  static std::string names(S& s)
+  {
+    std::string r;
+    for (auto& e : s.internal_func_ptr_map) r += e.first + ":";
+    return r;
+  }
+};
+static std::string cache2_names(sbx_t& s) { return cache2<sbx_t>::names(s); }
 static std::string key(World& w)
 {
   auto& m = w.m;
@@ -313,7 +330,12 @@ static std::string key(World& w)
   k += "|";
   for (int i : m.order) k += std::to_string(i);
   // implementation side: symbol cache and key list sizes, status word
-  for (int i = 0; i < 3; i++) k += "|" + std::to_string(w.s[i].func_ptr_map.size()) + "," + std::to_string(w.s[i].callback_keys.size()) + "," + std::to_string((int)w.s[i].sandbox_created.load());
+  for (int i = 0; i < 3; i++) {
+    k += "|";
+    for (auto& e : w.s[i].func_ptr_map) k += e.first + ":";          // by content, not by size
+    k += "/" + cache2_names(w.s[i]);
+    k += "," + std::to_string(w.s[i].callback_keys.size()) + "," + std::to_string((int)w.s[i].sandbox_created.load());
+  }
   return k;
 }
 
